@@ -7,8 +7,11 @@ import OjgVerif.JPath.LemmasRfc
   regenerated `Gen.Jp`. It is tied to the Go code by the correspondence run, not by a proof.
 * **Filters are an abstract predicate** `p : JV → Bool` inside `Frag.filter p`: the theorems hold for every
   predicate and say nothing about what a script means. What a script means is `JPath/FilterSpec.lean` (the
-  documented script semantics, evaluated in Lean); that Get keeps exactly the elements on which the script is
-  true in that sense is decided by the run (harness + driver), not by a theorem here.
+  documented script semantics, evaluated in Lean: exact int/float comparison, a bare path is an existence
+  test, `$` is the query argument wherever it stands); that Get keeps exactly the elements on which the script
+  is true in that sense is decided by the run (harness + driver), not by a theorem here. One place where it
+  does not: a `$` inside a filter nested in a script's own path (known finding C05-nested-filter-root, checked
+  example at the end of FilterSpec.lean).
 * Two denotations: `evalRfc` — the **documented** semantics (slices per RFC 9535 §2.3.4.2, transcribed in
   `Spec.lean` from the RFC) — and `eval`, the reading the code implements, which differs from it only for
   slices with a negative step outside `sliceIdx_eq_rfc_neg` (absent start or end, start outside `-n ≤ · < n`).
